@@ -34,7 +34,8 @@ Lemma env_step_einv gi go li lo e i e' ob : einv gi go li lo e -> inst_ok gi go 
   einv gi go li lo e' /\
   (* the source memory of a move in progress is not written *)
   (d_active (e_dm e) = true ->
-     pick (d_sside (e_dm e)) (e_mem_in e') (e_mem_out e') = pick (d_sside (e_dm e)) (e_mem_in e) (e_mem_out e)) /\
+     mem_read (pick (d_sside (e_dm e)) (e_mem_in e') (e_mem_out e')) (v_saddr (d_req (e_dm e))) (v_size (d_req (e_dm e))) =
+     mem_read (pick (d_sside (e_dm e)) (e_mem_in e) (e_mem_out e)) (v_saddr (d_req (e_dm e))) (v_size (d_req (e_dm e)))) /\
   (* an acknowledgment sent in this instant finds the copy complete *)
   (forall a v, g_acks (e_dm e') = g_acks (e_dm e) ++ [(a, v)] ->
      mem_read (pick (v_dside v) (e_mem_in e') (e_mem_out e')) (v_daddr v) (v_size v) =
@@ -73,7 +74,9 @@ Proof.
     assert (A0 : d_active (e_dm e0) = true) by (cbn [e0 e_dm]; rewrite F1; exact Act).
     assert (Ss2 : d_sside (e_dm e2) = d_sside (e_dm e)) by (unfold e2; rewrite serve_fold_sside; exact Ss1).
     pose proof (M2 ltac:(rewrite A1; exact Act)) as X2. pose proof (M1 A0) as X1. unfold src_mem in X1, X2.
-    rewrite Ss2, Ss1 in X2. rewrite Ss1 in X1. cbn [e0 e_dm e_mem_in e_mem_out] in X1. rewrite F2 in X1. congruence.
+    assert (Rq1 : d_req (e_dm e1) = d_req (e_dm e)) by (unfold ctl in C1; inversion C1; cbn [e0 e_dm] in *; congruence).
+    assert (Rq2 : d_req (e_dm e2) = d_req (e_dm e)) by (unfold ctl in C2; inversion C2; congruence).
+    rewrite Ss2, Ss1, Rq2, Rq1 in X2. rewrite Ss1, Rq1 in X1. cbn [e0 e_dm e_mem_in e_mem_out] in X1. rewrite F2, F3 in X1. congruence.
   - intros a v Hacks. rewrite GA, <- Acks2 in Hacks.
     destruct (finish_acks (e_dm e2)) as [Same|[Act [Fin [a0 Hap]]]].
     + rewrite Same in Hacks. exfalso. apply (f_equal (@length _)) in Hacks. rewrite app_length in Hacks. cbn in Hacks. lia.
